@@ -5,7 +5,7 @@ ID = "C04"
 GEN = "c04"
 HARNESS_TEST = "TestC04"
 COQ_MODEL = ["C04/Check.v", "Gen/C04Facts.v"]
-COQ_PROOF_DEPS = ["C04/Proofs.v"]
+COQ_PROOF_DEPS = ["C04/Proofs.v"]  # pulls ProofsBase/Undo/Ops/Inv/Sim/Run
 COQ_OBLIG = ["C04/Property.v", "Gen/C04Oblig.v"]
 CASES_HEADER = "Require Import Nib.C04.Model Nib.C04.Spec Nib.C04.Check Nib.Gen.C04Facts."
 CASE_TYPE = "case"
